@@ -20,6 +20,9 @@ Accept(expData, expGhost, isAppend) ==
   /\ Judge("C13", E.slice = FixCk(expGhost), Info("contents_vs_plain_vector", FixCk(expGhost)))
   /\ Judge("C13", E.len = Len(E.slice), Info("len", expData))
   /\ Judge("C13", Len(E.slice) < 10 \/ Sum8(E.slice) = 0, Info("checksum", expData))
+  \* the generic table is one of the checksummed structures of C01; its Length field is C02's after appends
+  /\ Judge("C01", Len(E.slice) < 10 \/ Sum8(E.slice) = 0, Info("checksum", expData))
+  /\ Judge("C02", isAppend => (Len(E.slice) >= 8 /\ LengthFieldAfterAppend(E.slice)), Info("length_field_after_append", expData))
   /\ Judge("C13", isAppend => (Len(E.slice) >= 8 /\ LengthFieldAfterAppend(E.slice)), Info("length_field_after_append", expData))
   /\ Judge("C13", (E.last /\ Has(E, "ser")) => E.ser = E.slice, Info("serialised_form", expData))
   /\ data' = E.slice
